@@ -63,6 +63,15 @@ binding:   (a) every CASE line of TLC (document P, Dump(P), Parse(Dump(P))) is c
                lines (BigInvariant), replayed like every other CASE; the recorder adds documents of
                1000x1, 100x2, 1x100 fields, 1x1x150 continuation lines ... (thorough: 1x257 fields,
                1000x2), observed at about 24 prefix lengths each (np = -2 marks an unobserved prefix).
+           (e) renderings of ONE live paragraph between edits (spec/Deb822ReaderEdits.tla): the closed LTS of every public
+               mutator (item set / del, update, setdefault, pop, popitem, clear, order_first / last / before / after,
+               sort_fields with and without key, merge_fields in place incl. the deprecated alias) is replayed -- scripted
+               and random behaviours on objects parsed through rotating entry points -- and after EVERY step every way of
+               rendering the object (dump(), str, bytes, dump(fd) binary / with encoding / text mode, get_as_string) must
+               re-parse (rotating input form) to the model's current fields in the current order, and all renderings must
+               be the same text.  Spec-level negative control: a render memo invalidated only by set / del makes TLC
+               report RendersCurrent.  Recorded histories over 6 names are validated by TraceDeb822ReaderEdits
+               (hand-written corrupted control histories must be rejected).
 verdict observables: list of (name, value) per paragraph == TLC's parse (first line trimmed,
            continuation lines verbatim) in every form; "\\n".join(p.dump()) of the re-parsed paragraphs
            == dump of the expected paragraphs; no exception; a call never returns an object it returned
@@ -150,7 +159,7 @@ from lts import LTS, skey
 MANIFEST = dict(
     technique="TLA+ specs Deb822Reader + Deb822ReaderCalls (line-class automaton of _skip_useless_lines + split_gpg_and_payload + _internal_parser + iter_paragraphs, inverse operator Dump, clearsign Armor) model-checked by TLC (closed automaton; all bounded documents); every TLC case replayed as real dump()+re-parse in six input forms x comments x armor; prefix-closed executions of the real reader validated by TLC (TraceDeb822Reader)",
     text="The reader is specified as one automaton over eleven line classes with one named branch per branch of the code's loops. TLC checks on the closed automaton that the branch guards are total and exclusive and that EOFError coincides with an empty paragraph, and on every document of up to 3 paragraphs x 3 fields (at most 3 fields in all in the quick tier, 4-5 in the thorough tier, plus all 3x3 documents over two value shapes) x values with empty/non-empty first line and 0-2 continuation lines that Parse(Dump(P)) = P, also with a comment line at any position or before every line, with leading/trailing/multiple separator lines, and (single paragraphs) inside clearsign armor of several shapes. Each enumerated document carries TLC's expected parse; it is concretized (odd but Policy-valid names, values starting with ':' '#' '-', padded first lines, colons / PGP look-alikes / trailing blanks in continuation lines, UTF-8 whose bytes contain 0x85/0xa0), built as Deb822 objects, dumped and read back through iter_paragraphs / Deb822 / Dsc / Changes in six input forms. In the other direction random documents of up to 8 paragraphs are parsed prefix by prefix by the real code and TLC must explain every intermediate result with the automaton.",
-    note="Small-scope for the exhaustive part; payload text is sampled. API surface: every public way of parsing and dumping (positional / keyword arguments, nine classes and their iter_paragraphs, twelve input forms, fields=, strict=, encoding=, every dump variant, copy / deepcopy / pickle, gpg_stripped_paragraph) is exercised on a rotating sample with the same expectations (table in the module docstring); the strictness flag is judged with TLC's parse under either value. Character stress: non-NFC twins, case hazards, invisible characters, line-final characters over every UTF-8 continuation byte. Whitespace-only lines in other positions, junk lines and stray PGP lines are modelled and replayed but only diagnostic. Unspecified (drift, reported to the maintainers): fields= in another spelling / leaving a paragraph empty, text input with a non-UTF-8 encoding, pickle protocols 0-1, copy.copy sharing storage. Observation (unspecified for C02, recorded as drift): Dsc/Changes given a list or file whose leading comment is followed by a blank line lose the paragraph. Trusted: TLC, the concretizer (line class known by construction), the projection items()/value.split('\\n')/dump(). Size stress in both legs: names up to 300 characters, lines around 4 KiB / 8 KiB / 64 KiB, documents of 1000 paragraphs, paragraphs of 100 fields, values of 100+ continuation lines (expected results from TLC's BigInvariant configuration / trace validation with sparse observation). Independence of calls (module Deb822ReaderCalls: memo / shared-object negative controls, LTS replayed; repeated parses with caller-side mutation, interleaved generators, kept-alive objects). Seven spec-level negative controls and corrupted control traces must fail.",
+    note="Small-scope for the exhaustive part; payload text is sampled. API surface: every public way of parsing and dumping (positional / keyword arguments, nine classes and their iter_paragraphs, twelve input forms, fields=, strict=, encoding=, every dump variant, copy / deepcopy / pickle, gpg_stripped_paragraph) is exercised on a rotating sample with the same expectations (table in the module docstring); the strictness flag is judged with TLC's parse under either value. Character stress: non-NFC twins, case hazards, invisible characters, line-final characters over every UTF-8 continuation byte. Whitespace-only lines in other positions, junk lines and stray PGP lines are modelled and replayed but only diagnostic. Unspecified (drift, reported to the maintainers): fields= in another spelling / leaving a paragraph empty, text input with a non-UTF-8 encoding, pickle protocols 0-1, copy.copy sharing storage. Observation (unspecified for C02, recorded as drift): Dsc/Changes given a list or file whose leading comment is followed by a blank line lose the paragraph. Trusted: TLC, the concretizer (line class known by construction), the projection items()/value.split('\\n')/dump(). Size stress in both legs: names up to 300 characters, lines around 4 KiB / 8 KiB / 64 KiB, documents of 1000 paragraphs, paragraphs of 100 fields, values of 100+ continuation lines (expected results from TLC's BigInvariant configuration / trace validation with sparse observation). Independence of calls (module Deb822ReaderCalls: memo / shared-object negative controls, LTS replayed; repeated parses with caller-side mutation, interleaved generators, kept-alive objects). Renderings of one live paragraph between arbitrary public mutators (module Deb822ReaderEdits: LTS replayed with every dump variant after every step, recorded histories validated, render-memo negative control). Eight spec-level negative controls and corrupted control traces must fail.",
     design="5 (C02)")
 
 FORMS = ("str", "bytes", "lines_nl", "lines", "sio", "bio")
@@ -1368,6 +1377,7 @@ def replay_chunk(args):
     import sys
     import warnings
     warnings.filterwarnings("ignore", message="Parsing of Deb822 data with python3-apt")
+    warnings.filterwarnings("ignore", message="decoding from .* failed; attempting to detect")
     lib = os.path.join(repo, "lib")
     if lib not in sys.path:
         sys.path.insert(0, lib)
@@ -1727,6 +1737,327 @@ def _exec_calls(steps, texts, drifts, objs, iters, inputs):
     return None
 
 
+# ---- edit / render histories of ONE live paragraph (spec/Deb822ReaderEdits.tla)
+
+EDIT_SCRIPTS = [
+    [("render", ["dump"]), ("order_first", [3]), ("render", ["str"]), ("sort_fields", []), ("render", ["bytes"])],
+    [("render", ["str"]), ("sort_fields_key", []), ("order_last", [3]), ("set", [2, 1]), ("order_before", [1, 2])],
+    [("render", ["bytes"]), ("order_after", [1, 3]), ("del", [2]), ("order_first", [3]), ("merge_from_other", [2, 1])],
+    [("order_last", [1]), ("render", ["dump"]), ("order_before", [3, 2]), ("update", [3, 2, 1, 2]), ("sort_fields", [])],
+    [("render", ["dump"]), ("pop", [1]), ("setdefault", [1, 2]), ("order_first", [1]), ("popitem", []), ("sort_fields_key", [])],
+    [("render", ["str"]), ("merge_only_here", [2]), ("order_after", [2, 3]), ("clear", []), ("set", [3, 1]), ("set", [1, 2]),
+     ("order_first", [1])],
+]
+RENDER_KINDS = ("dump()", "str(d)", "bytes(d)", "dump(BytesIO)", "dump(BytesIO, 'utf-8')", "dump(StringIO, text_mode=True)",
+                "dump(fd=StringIO, encoding=None, text_mode=True)")
+
+
+def renderings(p):
+    """every public way of rendering one paragraph, as text"""
+    out = [("dump()", p.dump()), ("str(d)", str(p)), ("bytes(d)", bytes(p).decode("utf-8"))]
+    b = io.BytesIO()
+    p.dump(b)
+    out.append(("dump(BytesIO)", b.getvalue().decode("utf-8")))
+    b = io.BytesIO()
+    p.dump(b, "utf-8")
+    out.append(("dump(BytesIO, 'utf-8')", b.getvalue().decode("utf-8")))
+    t = io.StringIO()
+    p.dump(t, text_mode=True)
+    out.append(("dump(StringIO, text_mode=True)", t.getvalue()))
+    t = io.StringIO()
+    p.dump(fd=t, encoding=None, text_mode=True)
+    out.append(("dump(fd=StringIO, encoding=None, text_mode=True)", t.getvalue()))
+    return out
+
+
+def check_renderings(p, want, n):
+    """every rendering of the object as it is now re-parses to its current fields in the current order, all
+    renderings agree, get_as_string gives the current values; returns None or a message"""
+    got = items_of(p)
+    if got != want:
+        return None, "the paragraph shows %s" % brief(got, want)
+    try:
+        rs = renderings(p)
+        gs = [(k, p.get_as_string(k)) for k in p]
+    except Exception as e:
+        return None, "rendering raised %s: %s" % (type(e).__name__, e)
+    if gs != want:
+        return rs, "[(k, d.get_as_string(k)) for k in d] = %s" % brief(gs, want)
+    for i, (name, text) in enumerate(rs):
+        form = ALL_FORMS[(n + i) % len(ALL_FORMS)]
+        back, _ = read_iter("Deb822", make_input(form, text.split("\n")[:-1] if text else []))
+        if back != ([want] if want else []):
+            return rs, ("%s = %r re-parses (<%s>) to %s -- the paragraph itself holds these fields in this order"
+                        % (name, text[:600], form, brief(back, [want] if want else [])))
+    for name, text in rs[1:]:
+        if text != rs[0][1]:
+            return rs, "%s = %r but %s = %r" % (name, text[:600], rs[0][0], rs[0][1][:600])
+    return rs, None
+
+
+def apply_edit(p, st, names, values, rank):
+    """one public mutator (the model's op) on the real paragraph"""
+    import warnings
+    op, a = st["op"], st["args"]
+    style = st.get("style", 0)
+    if op == "set":
+        p[names[a[0]]] = values[(a[0], a[1])]
+    elif op == "del":
+        del p[names[a[0]]]
+    elif op == "pop":
+        p.pop(names[a[0]])
+    elif op == "popitem":
+        p.popitem()
+    elif op == "clear":
+        p.clear()
+    elif op == "setdefault":
+        p.setdefault(names[a[0]], values[(a[0], a[1])])
+    elif op == "update":
+        pairs = [(names[a[0]], values[(a[0], a[1])]), (names[a[2]], values[(a[2], a[3])])]
+        p.update(dict(pairs) if style % 2 == 0 else pairs)
+    elif op == "order_first":
+        p.order_first(names[a[0]])
+    elif op == "order_last":
+        p.order_last(names[a[0]])
+    elif op == "order_before":
+        p.order_before(names[a[0]], names[a[1]])
+    elif op == "order_after":
+        p.order_after(names[a[0]], names[a[1]])
+    elif op == "sort_fields":
+        p.sort_fields() if style % 2 == 0 else p.sort_fields(None)
+    elif op == "sort_fields_key":
+        p.sort_fields(key=lambda x: -rank[x.lower()])
+    elif op in ("merge_from_other", "merge_only_here"):
+        other = {names[a[0]]: values[(a[0], a[1])]} if op == "merge_from_other" else {}
+        if style % 3 == 1:
+            other = _cls("Deb822")(other)
+        if style % 3 == 2:
+            with warnings.catch_warnings():
+                warnings.simplefilter("ignore")
+                p.mergeFields(names[a[0]], other)
+        else:
+            p.merge_fields(names[a[0]], other)
+    elif op == "render":
+        {"dump": p.dump, "str": lambda: str(p), "bytes": lambda: bytes(p)}[a[0]]()
+    else:
+        raise core.MachineryError("unknown edit %r" % op)
+
+
+def edits_conc(rng, nkeys=3, canonical=False):
+    taken = {NEW_KEY.lower()}
+    ks = []
+    for _ in range(nkeys):
+        k = gen_key(rng, taken, canonical)
+        taken.add(k.lower())
+        ks.append(k)
+    ks.sort(key=str.lower)            # rank = position in the case-insensitive sort order (sort_fields default)
+    names = {i + 1: k for i, k in enumerate(ks)}
+    values = {}
+    for k in names:
+        values[(k, 1)] = gen_data(rng, canonical)
+        values[(k, 2)] = "\n" + gen_cont(rng, canonical) + "\n" + gen_cont(rng, canonical)
+    return names, values
+
+
+def model_fields(state, names, values):
+    """model state <<[k, v]>> -> [(name, value)] (v = <<100+k>> -> alternative 1, <<0, 200+k, 300+k>> -> 2)"""
+    return [(names[f["k"]], values[(f["k"], 1 if len(f["v"]) == 1 else 2)]) for f in state]
+
+
+def exec_edits(case):
+    """case: names {rank: name}, values {(rank, alt): text} as [[rank, alt, text]], init, steps [{op, args, style, expect}],
+    entry (parse variant).  Returns None or a message"""
+    names = {int(k): v for k, v in case["names"].items()}
+    values = {(k, a): t for k, a, t in case["values"]}
+    rank = {v.lower(): k for k, v in names.items()}
+    init = [tuple(kv) for kv in case["init"]]
+    text = build_and_dump([init])
+    if isinstance(text, tuple):
+        return "cannot build the initial paragraph: %r" % (text,)
+    got, objs = call_parse(case["entry"], text.split("\n")[:-1])
+    want0 = [init] if case["entry"]["via"] == "iter" else init
+    if got != want0 or not objs:
+        return "%s = %s" % (vdesc(case["entry"]), brief(got, want0))
+    p = objs[0]
+    _, msg = check_renderings(p, init, 0)
+    if msg:
+        return "freshly parsed by %s: %s" % (vdesc(case["entry"]), msg)
+    done = []
+    for n, st in enumerate(case["steps"]):
+        done.append("%s%s" % (st["op"], tuple(st["args"])))
+        try:
+            apply_edit(p, st, names, values, rank)
+        except core.MachineryError:
+            raise
+        except Exception as e:
+            return "after %s: %s raised %s: %s" % (" ; ".join(done[:-1]) or "parsing", done[-1], type(e).__name__, e)
+        want = [tuple(kv) for kv in st["expect"]]
+        _, msg = check_renderings(p, want, n)
+        if msg:
+            return "history %s on one paragraph (parsed by %s): %s" % (" ; ".join(done), vdesc(case["entry"]), msg)
+    return None
+
+
+def edits_case(rng, path, n):
+    names, values = edits_conc(rng, canonical=(n % 5 == 0))
+    init_state = path[0]["from"] if path else []
+    steps = [{"op": e["op"], "args": e["args"], "style": rng.randrange(6),
+              "expect": [list(kv) for kv in model_fields(e["to"], names, values)]} for e in path]
+    cls = (PLAIN_CLASSES + ("Dsc", "Changes"))[n % (len(PLAIN_CLASSES) + 2)]
+    form = ALL_FORMS[n % len(ALL_FORMS)] if cls in PLAIN_CLASSES else ("str", "bytes")[n % 2]
+    entry = {"cls": cls, "via": ("ctor", "iter")[n % 2] if cls in PLAIN_CLASSES else "ctor", "style": ("pos", "kw", "kwseq")[n % 3],
+             "form": form, "strict": None}
+    return {"kind": "edits", "names": {str(k): v for k, v in names.items()}, "values": [[k, a, t] for (k, a), t in sorted(values.items())],
+            "init": [list(kv) for kv in model_fields(init_state, names, values)], "steps": steps, "entry": entry}
+
+
+# recorded edit histories (code -> spec): a larger alphabet, every event carries what the real reader gets back
+# from every rendering of the object
+
+def record_edits(rng, nkeys, nops):
+    names, values = edits_conc(rng, nkeys)
+    rank = {v.lower(): k for k, v in names.items()}
+
+    def split(v):
+        return v.split("\n")
+
+    def proj(items):
+        return [{"k": rank[k.lower()], "v": split(v)} for k, v in items]
+    start = rng.sample(sorted(names), rng.randint(1, nkeys))
+    init = [(names[k], values[(k, rng.choice((1, 2)))]) for k in start]
+    text = build_and_dump([init])
+    try:
+        p = _cls("Deb822")(text)
+    except Exception as e:          # an exception of the code under test is an observation: an unexplainable history
+        err = [{"k": 0, "v": ["parsing %r raised %s: %s" % (text, type(e).__name__, e)]}]
+        return {"init": proj(init), "names": {str(k): v for k, v in names.items()},
+                "values": [[k, a, t] for (k, a), t in sorted(values.items())],
+                "events": [{"op": "render", "k": 1, "r": 1, "v": [""], "v2": [""], "obs": err, "rend": [], "same": False,
+                            "args": ["dump"], "style": 0}]}
+    events = []
+    ops = ["set", "set", "del", "pop", "popitem", "setdefault", "update", "order_first", "order_last", "order_before",
+           "order_after", "sort_fields", "sort_fields_key", "merge_from_other", "merge_only_here", "render", "render", "clear"]
+    for n in range(nops):
+        present = [rank[k.lower()] for k in p]
+        absent = [k for k in names if k not in present]
+        op = rng.choice(ops)
+        k = rng.choice(sorted(names))
+        r = rng.choice(sorted(names))
+        a, b = rng.choice((1, 2)), rng.choice((1, 2))
+        if op in ("del", "pop", "order_first", "order_last", "merge_only_here"):
+            if not present:
+                continue
+            k = rng.choice(present)
+        if op in ("order_before", "order_after"):
+            if len(present) < 2:
+                continue
+            k, r = rng.sample(present, 2)
+        if op == "popitem" and not present:
+            continue
+        if op == "clear" and (not present or rng.random() < 0.7):
+            continue
+        if op == "merge_from_other":
+            if not absent:
+                continue
+            k = rng.choice(absent)
+        if op == "update" and k == r:
+            continue
+        st = {"op": op, "style": rng.randrange(6),
+              "args": {"set": [k, a], "setdefault": [k, a], "merge_from_other": [k, a], "update": [k, a, r, b],
+                       "order_before": [k, r], "order_after": [k, r], "render": [rng.choice(("dump", "str", "bytes"))]}.get(op, [k])}
+        try:
+            apply_edit(p, st, names, values, rank)
+            rs = renderings(p)
+            rend = []
+            for i, (_, t) in enumerate(rs):
+                back, _ = read_iter("Deb822", make_input(ALL_FORMS[(n + i) % len(ALL_FORMS)], t.split("\n")[:-1] if t else []))
+                rend.append([proj(x) for x in back] if not isinstance(back, tuple) else [[{"k": 0, "v": [back[1]]}]])
+            same = all(t == rs[0][1] for _, t in rs)
+            obs = proj(items_of(p))
+        except core.MachineryError:
+            raise
+        except Exception as e:
+            obs, rend, same = [{"k": 0, "v": ["%s: %s" % (type(e).__name__, e)]}], [], False
+        events.append({"op": op, "k": k, "r": r, "v": split(values[(k, a)]), "v2": split(values[(r, b)]),
+                       "obs": obs, "rend": rend, "same": same, "args": st["args"], "style": st["style"]})
+    return {"init": proj(init), "events": events, "names": {str(k): v for k, v in names.items()},
+            "values": [[k, a, t] for (k, a), t in sorted(values.items())]}
+
+
+def rerecord_edits(t):
+    """perform the recorded calls again on the current tree"""
+    names = {int(k): v for k, v in t["names"].items()}
+    values = {(k, a): x for k, a, x in t["values"]}
+    rank = {v.lower(): k for k, v in names.items()}
+
+    def proj(items):
+        return [{"k": rank[k.lower()], "v": v.split("\n")} for k, v in items]
+    init = [(names[f["k"]], "\n".join(f["v"])) for f in t["init"]]
+    try:
+        p = _cls("Deb822")(build_and_dump([init]))
+    except Exception as ex:
+        return dict(t, events=[dict(t["events"][0], obs=[{"k": 0, "v": ["%s: %s" % (type(ex).__name__, ex)]}], rend=[], same=False)])
+    events = []
+    for n, e in enumerate(t["events"]):
+        try:
+            apply_edit(p, {"op": e["op"], "args": e["args"], "style": e["style"]}, names, values, rank)
+            rs = renderings(p)
+            rend = []
+            for i, (_, x) in enumerate(rs):
+                back, _ = read_iter("Deb822", make_input(ALL_FORMS[(n + i) % len(ALL_FORMS)], x.split("\n")[:-1] if x else []))
+                rend.append([proj(y) for y in back] if not isinstance(back, tuple) else [[{"k": 0, "v": [back[1]]}]])
+            events.append(dict(e, obs=proj(items_of(p)), rend=rend, same=all(x == rs[0][1] for _, x in rs)))
+        except core.MachineryError:
+            raise
+        except Exception as ex:
+            events.append(dict(e, obs=[{"k": 0, "v": ["%s: %s" % (type(ex).__name__, ex)]}], rend=[], same=False))
+    return dict(t, events=events)
+
+
+def _ef(k, *v):
+    return {"k": k, "v": list(v)}
+
+
+def _eev(op, k, r, obs, rend=None, same=True):
+    return {"op": op, "k": k, "r": r, "v": ["x"], "v2": ["y"], "obs": obs, "rend": [[obs] if obs else []] * 3 if rend is None else rend,
+            "same": same}
+
+
+# hand-written control histories the specification must NOT explain (independent of the code under test)
+EDIT_CONTROLS = [
+    # a rendering that still shows the order before order_first (a stale render memo)
+    {"init": [_ef(1, "a"), _ef(2, "b")],
+     "events": [_eev("render", 1, 1, [_ef(1, "a"), _ef(2, "b")]),
+                _eev("order_first", 2, 1, [_ef(2, "b"), _ef(1, "a")], rend=[[[_ef(2, "b"), _ef(1, "a")]], [[_ef(1, "a"), _ef(2, "b")]]])]},
+    # renderings that disagree
+    {"init": [_ef(1, "a")], "events": [_eev("sort_fields", 1, 1, [_ef(1, "a")], same=False)]},
+    # sort_fields that does not sort
+    {"init": [_ef(2, "b"), _ef(1, "a")], "events": [_eev("sort_fields", 1, 1, [_ef(2, "b"), _ef(1, "a")])]},
+    # a deleted field that is still rendered
+    {"init": [_ef(1, "a"), _ef(2, "b")], "events": [_eev("del", 1, 1, [_ef(2, "b")], rend=[[[_ef(1, "a"), _ef(2, "b")]]])]},
+]
+
+
+def validate_edits(ctx, traces, diag=False):
+    """TLC (TraceDeb822ReaderEdits) on the recorded edit histories + controls; returns (rejected ids, progress, result)"""
+    path = os.path.join(ctx.work, "edit-traces-%d.json" % (1 if diag else 0))
+    allt = [{"init": t["init"], "events": t["events"]} for t in traces] + ([] if diag else EDIT_CONTROLS)
+    with open(path, "w") as f:
+        json.dump(allt, f)
+    r = core.run_tlc("TraceDeb822ReaderEdits", "TraceDeb822ReaderEdits.cfg", ctx.work, workers=1,
+                     env={"TRACE_FILE": path, "TRACE_DIAG": "1" if diag else "0"}, want_tags={"ACCEPTED", "AT"},
+                     timeout=900 if ctx.tier == "quick" else 3600)
+    if r.violated:
+        raise core.MachineryError("trace module TraceDeb822ReaderEdits reported %s\n%s" % (r.violated, r.tail))
+    acc = {v if isinstance(v, int) else v[0] for v in r.printed.get("ACCEPTED", [])}
+    if any(i > len(traces) for i in acc):
+        raise core.MachineryError("TraceDeb822ReaderEdits accepted a corrupted control history: binding is vacuous")
+    prog = {}
+    for v in r.printed.get("AT", []):
+        prog[v[0]] = max(prog.get(v[0], 0), v[1])
+    return [i for i in range(1, len(traces) + 1) if i not in acc], prog, r
+
+
 # ------------------------------------------------------------------ TLC configurations
 
 def cfg_text(name, **sub):
@@ -1742,6 +2073,7 @@ def cfg_text(name, **sub):
 def run(ctx):
     import warnings
     warnings.filterwarnings("ignore", message="Parsing of Deb822 data with python3-apt")
+    warnings.filterwarnings("ignore", message="decoding from .* failed; attempting to detect")
     quick = ctx.tier == "quick"
     rng = ctx.rng
     ctx.import_repo()
@@ -1802,13 +2134,16 @@ def run(ctx):
             dict(name="bnd_wide", cfg=bnd_cfg(inv_multi[:-2], MaxTotal="9", MaxCont="1", ShapeMode="1"), workers=workers, tags=set()),
             big_job,
         ]
-    controls = NEG_CONTROLS if not quick else [NEG_CONTROLS[ctx.seed % len(NEG_CONTROLS)], NEG_CONTROLS[(ctx.seed + 2) % len(NEG_CONTROLS)]]
+    controls = NEG_CONTROLS if not quick else [NEG_CONTROLS[ctx.seed % len(NEG_CONTROLS)]]
     for const, val, inv in controls:
         light.append(dict(name="neg:%s=%s" % (const, val), expect=inv, workers=1, tags=set(),
                           cfg=cfg_text("MC_Deb822Reader_bnd.cfg", MaxTotal="2", MaxCont="1", ArmorHdrs="{1}", **{const: val})))
     kinds = '{"heavy"}' if quick else '{"heavy", "del", "first"}'
     light.append(dict(name="calls", module="Deb822ReaderCalls", workers=3 if quick else 4, tags={"EDGE", "DOCS"},
                       cfg=cfg_text("MC_Deb822ReaderCalls.cfg", Kinds=kinds)))
+    light.append(dict(name="edits", module="Deb822ReaderEdits", workers=2, tags={"EDGE"}, cfg="MC_Deb822ReaderEdits.cfg"))
+    light.append(dict(name="neg:RenderMemoClearedBySetDelOnly", module="Deb822ReaderEdits", expect="RendersCurrent", workers=1, tags=set(),
+                      cfg=cfg_text("MC_Deb822ReaderEdits.cfg", UseMemo="TRUE", MemoClearedBy='{"set", "del"}', Emit="FALSE")))
     call_controls = [("SharedResults", "INVARIANT ReturnedFresh", "ReturnedFresh"),
                      ("SharedIterObject", "PROPERTY NoSpontaneousChange", "NoSpontaneousChange")]
     for const, prop, inv in (call_controls if not quick else [call_controls[ctx.seed % 2]]):
@@ -1984,6 +2319,42 @@ def run(ctx):
     ctx.extra["calls"] = {"lts_states": len(cg.states), "lts_edges": len(cg.edges), "behaviours_replayed": len(paths),
                           "calls_executed": ncalls, "per_op": cops, "kinds": kinds}
     ctx.sample("call behaviour: " + " ; ".join("%s%s" % (e["op"], tuple(e["args"])) for e in follow(cg, CALL_SCRIPTS[2])))
+    # 2c. edit / render histories of one live paragraph (Deb822ReaderEdits): scripted and random behaviours
+    eedges = res["edits"].printed.get("EDGE", [])
+    if len(eedges) != res["edits"].generated - 1 or any(not isinstance(e, dict) for e in eedges):
+        raise core.MachineryError("edit model: %d EDGE lines for %d generated states" % (len(eedges), res["edits"].generated))
+    eedges.sort(key=lambda e: (skey(e["from"]), e["op"], skey(e["args"])))
+    einit = [e["from"] for e in eedges if len(e["from"]) == 3 and [f["k"] for f in e["from"]] == [1, 2, 3]
+             and [len(f["v"]) for f in e["from"]] == [1, 3, 1]][0]
+    eg = LTS(eedges, einit)
+    nrep, nwalks = (6, 120) if quick else (60, 4000)
+    epaths = []
+    for sc in EDIT_SCRIPTS:
+        pth = follow(eg, sc)
+        if len(pth) != len(sc):
+            raise core.MachineryError("edit script %r cannot be followed in the emitted LTS" % (sc,))
+        epaths += [pth] * nrep
+    for _ in range(nwalks):
+        epaths.append(eg.walk(rng, eg.init, rng.randint(3, 12), weight=lambda x: 1 if x["op"] in ("render", "clear") else 3))
+    eops = {}
+    nsteps = 0
+    for n, pth in enumerate(epaths):
+        ecase = edits_case(random.Random("%s-edits-%d" % (ctx.seed, n)), pth, n)
+        for st in ecase["steps"]:
+            eops[st["op"]] = eops.get(st["op"], 0) + 1
+        nsteps += len(pth)
+        msg = exec_edits(ecase)
+        ctx.case_seen(("edits", n), True)
+        if msg:
+            ctx.violation(ecase, msg)
+            if len(ctx.violations) >= 5:
+                break
+    ctx.traces += len(epaths)
+    ctx.evaluations += nsteps * len(RENDER_KINDS)
+    ctx.extra["edits"] = {"lts_states": len(eg.states), "lts_edges": len(eg.edges), "behaviours_replayed": len(epaths),
+                          "mutator_calls": nsteps, "renderings_checked": (nsteps + len(epaths)) * len(RENDER_KINDS),
+                          "per_op": dict(sorted(eops.items()))}
+    ctx.sample("edit history: " + " ; ".join("%s%s" % (e["op"], tuple(e["args"])) for e in follow(eg, EDIT_SCRIPTS[0])))
     tm["calls"] = round(time.time() - t_, 1)
     t_ = time.time()
     # 3. (b) recorded documents, prefix by prefix, validated by TLC
@@ -2046,9 +2417,31 @@ def run(ctx):
         check_domain(lines)
         wtr.append(record(lines, FORMS[i % len(FORMS)]))
         wmeta.append([ln["text"] for ln in lines])
+    # recorded edit / render histories of one paragraph (6 names), validated by TraceDeb822ReaderEdits beside the reader traces
+    etraces = [record_edits(random.Random("%s-edit-trace-%d" % (ctx.seed, i)), 6, 20 if quick else 40) for i in range(40 if quick else 1500)]
     tm["record"] = round(time.time() - t_, 1)
     t_ = time.time()
-    rej_all, info = validate(ctx, traces + wtr)
+    with ThreadPoolExecutor(max_workers=1) as ex:
+        f_edits = ex.submit(validate_edits, ctx, etraces)
+        rej_all, info = validate(ctx, traces + wtr)
+        erej, _, er = f_edits.result()
+    ctx.tlc_runs.append({"module": "TraceDeb822ReaderEdits", "generated": er.generated, "distinct": er.distinct, "depth": er.depth,
+                         "wall_s": round(er.wall, 2), "violated": er.violated})
+    ctx.states += er.distinct
+    ctx.transitions += er.generated
+    ctx.extra["negative_controls_rejected"] = ctx.extra.get("negative_controls_rejected", 0) + len(EDIT_CONTROLS)
+    ctx.traces += len(etraces)
+    ctx.extra["edit_traces"] = {"recorded": len(etraces), "events": sum(len(t["events"]) for t in etraces), "rejected": len(erej)}
+    if erej:
+        _, eprog, _ = validate_edits(ctx, [etraces[i - 1] for i in erej[:10]], diag=True)
+        for j, i in enumerate(erej[:5]):
+            t = etraces[i - 1]
+            at = eprog.get(j + 1, 0)
+            ev = t["events"][at] if at < len(t["events"]) else None
+            ctx.violation({"kind": "edit-trace", "trace": t, "first_unexplained_event": at + 1},
+                          "recorded edit history of one paragraph not explained by Deb822ReaderEdits: after %s the event %s"
+                          % (" ; ".join("%s%s" % (e["op"], tuple(e["args"])) for e in t["events"][:at]) or "parsing",
+                             repr({k: ev[k] for k in ("op", "args", "obs", "rend", "same")} if ev else None)[:1500]))
     rejected = [i for i in rej_all if i <= len(traces)]
     wrej = [i - len(traces) for i in rej_all if i > len(traces)]
     ctx.extra["diagnostic_walks"] = {"documents": len(wtr), "rejected": len(wrej)}
@@ -2113,6 +2506,11 @@ def replay(ctx, case):
         return run_doc(job)
     if case["kind"] == "calls":
         return exec_calls(case["steps"], case["texts"])
+    if case["kind"] == "edits":
+        return exec_edits(case)
+    if case["kind"] == "edit-trace":
+        rej, prog, _ = validate_edits(ctx, [rerecord_edits(case["trace"])], diag=True)
+        return ("edit history still not explained by the specification at event %d" % (prog.get(1, 0) + 1)) if rej else None
     if case["kind"] == "trace":
         lines = case["lines"]
         t = record(lines, case["form"], case.get("final_nl", True), via=case.get("via"))
